@@ -85,3 +85,44 @@ theorem finalize_taproot_leaf (lh : Nat → Bytes → Bytes) (vk : Nat → Bytes
     pure, Except.pure]
 
 end Btc.C18.Fin
+
+namespace Btc.C18.Fin
+open Btc Btc.Script Btc.Spend
+open Btc.Script.Core (getB)
+
+theorem isP2pkh_p2pkh (h : Bytes) (hl : h.length = 20) : isP2pkh (p2pkh h) = true := by
+  have hd : (h ++ [136, 172]).drop 20 = [136, 172] := List.drop_left' hl
+  simp [isP2pkh, p2pkh, Gen.Spend.P2PKH_PREFIX, Gen.Spend.P2PKH_SUFFIX, getB, hl, hd]
+
+theorem p2pkh_length (h : Bytes) (hl : h.length = 20) : (p2pkh h).length = 25 := by
+  simp [p2pkh, Gen.Spend.P2PKH_PREFIX, Gen.Spend.P2PKH_SUFFIX, hl]
+
+/-- pkh() inside sh(): script_sig `sig pk redeem`, no witness (psbt.py `_finalized_input`, repaired in f2a4dfc2) -/
+theorem finalize_sh_pkh (vk : Bytes → Bool) (h hr pk sig : Bytes) (hl : h.length = 20) (hrl : hr.length = 20) :
+    finalizedInput vk ⟨some (p2sh hr), p2pkh h, [], [(pk, sig)]⟩ = .ok (serializePushes [sig, pk, p2pkh h], []) := by
+  have e := p2pkh_length h hl
+  have h87 : (hr ++ [135])[20]? = some 135 := by
+    rw [List.getElem?_append_right (by omega)]; simp [hrl]
+  have hs : isP2sh (p2sh hr) = true := by
+    simp [isP2sh, p2sh, Gen.Spend.P2SH_PREFIX, Gen.Spend.P2SH_SUFFIX, getB, List.getD, h87, hrl]
+  have hms : p2msMAndKeys vk (p2pkh h) = none := by simp [p2msMAndKeys, e]
+  have hnw : isP2wpkh (p2pkh h) = false := by simp [isP2wpkh, e]
+  have hk := isP2pkh_p2pkh h hl
+  have hne : (p2pkh h).isEmpty = false := by simp [p2pkh, Gen.Spend.P2PKH_PREFIX]
+  simp [finalizedInput, pushedSigs, satisfiedScript, spentScript, hs, hms, hnw, hk, hne, singleKey, serializePushes,
+    bind, Except.bind, pure, Except.pure]
+
+/-- pkh() inside wsh(), native or behind p2sh: witness `[sig, pk, witness_script]`, script_sig empty or the push of
+    the redeem script — whatever the script_pub_key is -/
+theorem finalize_wsh_pkh (vk : Bytes → Bool) (spk redeem h pk sig : Bytes) (hl : h.length = 20) :
+    finalizedInput vk ⟨some spk, redeem, p2pkh h, [(pk, sig)]⟩ =
+      .ok (serializePushes (if redeem.isEmpty then [] else [redeem]), [sig, pk, p2pkh h]) := by
+  have e := p2pkh_length h hl
+  have hms : p2msMAndKeys vk (p2pkh h) = none := by simp [p2msMAndKeys, e]
+  have hk := isP2pkh_p2pkh h hl
+  have hne : (p2pkh h).isEmpty = false := by simp [p2pkh, Gen.Spend.P2PKH_PREFIX]
+  by_cases hr : redeem.isEmpty = true <;>
+    simp [finalizedInput, pushedSigs, satisfiedScript, hms, hk, hne, hr, singleKey, serializePushes, bip147Dummy, isP2ms,
+      bind, Except.bind, pure, Except.pure, Except.map]
+
+end Btc.C18.Fin
